@@ -5,6 +5,9 @@
      fn       "self_sign" | "sign_req" | "derive" (derive_cert) | "new_cert" (issuance with explicit start and end)
      subj     subject key type (only selects the key; publen is its DER length)
      keyname  <<[t, l], ...>>   the subject key name  /<identity>/KEY/<key id>
+     lit      <<"", "KEY", ...>> parallel to keyname: a component that is a fixed text rather than arbitrary bytes
+              ("KEY" two before the end; identities may themselves contain components spelt KEY, self,
+              cert-request at any depth - the certificate name is still key-name / issuer-id / version)
      publen   length of the public key (the certificate content)
      issuer   [t, l]            the issuer-id component the caller asks for
      idform   how the caller writes it for derive_cert: "comp" (an encoded component) or text in NDN URI
@@ -40,20 +43,17 @@ CertCfg(q) ==
    hop |-> FALSE, app |-> -1, meta |-> [p |-> TRUE, ct |-> 1, fp |-> 4, fbi |-> -1], content |-> q.publen,
    sg |-> q.sg, vp |-> TRUE]
 
-\* "encodes exactly the requested instants": only derive_cert is given instants (start, start + lifetime).
-\* self_sign and sign_req choose their own period (today: 1970..now+20 years, now..now+10 days); the statement
-\* fixes no numbers for them, so the reference only requires a well-formed period that contains the moment of
-\* issuing (a certificate that is not valid when it is made would be useless).
-Exact(q) == q.fn \in {"derive", "new_cert"}
-NotBefore(q) == Render(q.start)
-NotAfterInst(q) == AddSec(q.start, q.dur)
-NotAfter(q) == Render(NotAfterInst(q))
-InScope(q) == IF Exact(q) THEN InstLeq(NotAfterInst(q), MaxInst)
-              ELSE \A i \in AddYears(Now(q), 20) : InstLeq(i, MaxInst)
-ValidityOk(q, nb, na) ==
-  IF Exact(q) THEN nb = NotBefore(q) /\ na = NotAfter(q)
-  ELSE LET a == ParseInst(nb)  b == ParseInst(na) IN
-       a.ok /\ b.ok /\ InstLeq(a.i, Now(q)) /\ InstLeq(Now(q), b.i)
+\* "encodes exactly the requested instants": derive_cert / new_cert are given them (start, start + lifetime).
+\* self_sign and sign_req request their documented periods: the epoch .. the same calendar day and time 20 years
+\* after the moment of issuing, resp. that moment .. 10 days later.  Only when 29 February has no counterpart
+\* 20 years later (2080 -> 2100) the day is not determined: 28 February and 1 March are both accepted.
+NotBeforeInst(q) == IF q.fn = "self_sign" THEN Epoch ELSE IF q.fn = "sign_req" THEN Now(q) ELSE q.start
+NotAfterInsts(q) == IF q.fn = "self_sign" THEN AddYears(Now(q), 20)
+                    ELSE IF q.fn = "sign_req" THEN {AddDays(Now(q), 10)} ELSE {AddSec(q.start, q.dur)}
+NotBefore(q) == Render(NotBeforeInst(q))
+NotAfter(q) == { Render(i) : i \in NotAfterInsts(q) }
+InScope(q) == \A i \in NotAfterInsts(q) : InstLeq(i, MaxInst)
+ValidityOk(q, nb, na) == nb = NotBefore(q) /\ na \in NotAfter(q)
 
 \* byte ranges of the two instants inside the wire
 ValidityRanges(q) ==
@@ -82,15 +82,19 @@ LawCert(q) ==
   \* the whole certificate except its outer TL and its SignatureValue is signed (so are both instants and the locator)
   /\ SignedRange(c) = <<Iv(Hdr(F), Size(F) - Size(F.kids[5]))>>
   /\ Inside(ValidityRanges(q).nb, SignedRange(c)[1]) /\ Inside(ValidityRanges(q).na, SignedRange(c)[1])
-  /\ (Exact(q) => /\ Len(NotBefore(q)) = 15 /\ Len(NotAfter(q)) = 15
-                   /\ (LexLess(NotBefore(q), NotAfter(q)) \/ NotBefore(q) = NotAfter(q))
-                   /\ ParseInst(NotBefore(q)) = [ok |-> TRUE, i |-> q.start]
-                   /\ ValidityOk(q, NotBefore(q), NotAfter(q)))
+  /\ Len(NotBefore(q)) = 15 /\ ParseInst(NotBefore(q)) = [ok |-> TRUE, i |-> NotBeforeInst(q)]
+  /\ \A i \in NotAfterInsts(q) : /\ ParseInst(Render(i)) = [ok |-> TRUE, i |-> i]
+                                  /\ InstLeq(NotBeforeInst(q), i)
+                                  /\ (LexLess(NotBefore(q), Render(i)) \/ NotBefore(q) = Render(i))
+  \* 20 years later is the same month and day whenever that day exists
+  /\ (q.fn = "self_sign" /\ HasSameDay(Now(q), 20) =>
+        \A i \in NotAfterInsts(q) : LET a == CivilFromDays(Now(q).d)  b == CivilFromDays(i.d) IN
+                                        b.y = a.y + 20 /\ b.m = a.m /\ b.d = a.d /\ i.s = Now(q).s)
 
 CertExpect(q) ==
   LET c == CertCfg(q) IN
   [lay |-> Flat(Final(c)), signed |-> SignedRange(c), sv |-> <<SigValueRange(c)>>,
-   exact |-> Exact(q), nb |-> IF Exact(q) THEN NotBefore(q) ELSE <<>>, na |-> IF Exact(q) THEN NotAfter(q) ELSE <<>>,
+   nb |-> NotBefore(q), na |-> NotAfter(q),
    nbr |-> ValidityRanges(q).nb, nar |-> ValidityRanges(q).na,
    klr |-> KeyLocatorRange(q), sameday |-> (q.fn # "self_sign" \/ HasSameDay(Now(q), 20))]
 =============================================================================
